@@ -7,7 +7,7 @@ import proto, gen, kernels, implutil
 THEOREMS = ['C02_crossing_char_rise', 'C02_crossing_char_decay', 'C02_crossings_sorted', 'C02_alternation', 'C02_halfwave_pos', 'C02_halfwave_neg',
             'C02_first_max', 'C02_first_min', 'C02_exact', 'C02_boundary', 'C02_alternating', 'C02_first', 'C02_full']
 RULE = ("generated signals of all families (ties / plateaus make first-occurrence observable) x fs x band x filter length (n_cycles 2..5 or n_seconds) x boundary x "
-        "first_extrema in {peak, trough, None, invalid} x pad in {True, False} x (12%) pass_type in {lowpass, highpass} with a one-sided f_range; the harness pads and band-passes as the property defines and ships the raw signal "
+        "first_extrema in {peak, trough, None, invalid} x pad in {True, False} x (12%) pass_type in {lowpass, highpass} with a one-sided f_range; one case in five after a REFUSED call with the same options (12 samples, unpadded); the harness pads and band-passes as the property defines and ships the raw signal "
         "and the SIGN PATTERN of the filtered signal; plus synthetic sign patterns (random run lengths, degenerate: constant, single crossing) on small integer signals; "
         "distinct = distinct inputs; non-trivial = at least two extrema reported or an exception predicted")
 ASSUMPTIONS = ["neurodsp.filt.filter_signal / compute_filter_length are parameters: only (filtered > 0) and ceil(filt_len/2) are used",
@@ -30,6 +30,15 @@ def _impl_signal(c):
             fk = dict(c['fk']) if c['fk'] is not None else None
             ptk = {'pass_type': c['pass_type']} if c.get('pass_type') else {}
             snap = repr(fk)
+            if len(c['sig']) % 5 == 0:
+                # AFTERMATH of a refused call: the same options on a recording much shorter than the filter, unpadded (neurodsp refuses it); whatever
+                # the call did on its way to the exception, the settings dictionary and every later call must be unaffected
+                for fkv in (fk, None):
+                    try:
+                        find_extrema(np.asarray(proto.hex2arr(c['sig']))[:12], c['fs'], tuple(c['f_range']), filter_kwargs=fkv, pad=False)
+                    except Exception:
+                        pass
+                if repr(fk) != snap: return ['err', 'RefusedCallChangedOptions']
             pk, tr = find_extrema(sig, c['fs'], tuple(c['f_range']), boundary=c['boundary'], first_extrema=c['first'], filter_kwargs=fk, pad=c['pad'], **ptk)
             # the caller keeps using its settings dictionary: a second call must see the same settings
             pk2, tr2 = find_extrema(sig, c['fs'], tuple(c['f_range']), boundary=c['boundary'], first_extrema=c['first'], filter_kwargs=fk, pad=c['pad'], **ptk)
